@@ -1,0 +1,68 @@
+//go:build verif
+
+// Contracts for the deductive verification in /verif (govc). Comment-only.
+// container/list is modelled abstractly (length + membership, see /verif/DESIGN.md §8): order
+// - which element is the oldest - is not part of the model, so "the least recently used entry is
+// the one evicted" is not claimed; the size bound and the index/list consistency are.
+
+package lru
+
+// (cache_wf is assumed by every method - established by New, its preservation would need "distinct
+// keys index distinct elements" - while the size bound is proved inductive over all operations)
+// every indexed element is a live element of the list holding a non-nil *entry; the list is
+// never longer than MaxEntries (when a limit is set)
+//@ predicate cache_wf(c): (c.cache != nil ==> c.ll != nil && 0 <= c.ll.len && c.ll.len <= 1<<40) && forall(string(k), haskey(c.cache, k) ==> c.cache[k] != nil && c.cache[k].list == c.ll && typeis(c.cache[k].Value, *entry) && unbox(c.cache[k].Value, *entry) != nil && same(unbox(c.cache[k].Value, *entry).key, k))
+//@ predicate cache_bound(c): c.cache != nil && c.MaxEntries > 0 ==> c.ll.len <= c.MaxEntries
+
+//@ func New
+//@   props C14
+//@   ensures result != nil && result.MaxEntries == maxEntries && cache_wf(result) && result.cache != nil && result.ll != nil && result.ll.len == 0
+
+//@ func (c *Cache) Len
+//@   props C14
+//@   assume cache_wf(c)
+//@   modifies nothing
+//@   ensures c.cache == nil ==> result == 0
+//@   ensures c.cache != nil && c.ll != nil ==> result == c.ll.len
+
+// only Add puts elements on the list, each one an &entry{...} (structural fact, assumed here)
+//@ func (c *Cache) removeElement
+//@   props C14
+//@   requires e != nil && c.ll != nil && c.cache != nil
+//@   requires e.list == c.ll
+//@   assume typeis(e.Value, *entry) && unbox(e.Value, *entry) != nil
+//@   ensures c.ll.len == old(c.ll.len) - 1 && c.ll == old(c.ll) && c.cache == old(c.cache) && c.MaxEntries == old(c.MaxEntries)
+//@   ensures !haskey(c.cache, unbox(old(e.Value), *entry).key) && map_unchanged_except(c.cache, unbox(old(e.Value), *entry).key)
+
+//@ func (c *Cache) RemoveOldest
+//@   props C14
+//@   assume cache_wf(c)
+//@   ensures old(cache_bound(c)) ==> cache_bound(c)
+//@   ensures c.cache != nil && old(c.ll.len) > 0 ==> c.ll.len == old(c.ll.len) - 1
+//@   ensures c.cache != nil && old(c.ll.len) <= 0 ==> c.ll.len == old(c.ll.len)
+//@   ensures c.ll == old(c.ll) && c.cache == old(c.cache) && c.MaxEntries == old(c.MaxEntries)
+
+//@ func (c *Cache) Get
+//@   props C14
+//@   assume cache_wf(c)
+//@   ensures old(cache_bound(c)) ==> cache_bound(c)
+//@   ensures result1 == haskey(c.cache, key)
+//@   ensures result1 ==> result0 == unbox(c.cache[key].Value, *entry).value
+//@   ensures c.ll == old(c.ll) && c.cache == old(c.cache) && map_unchanged_except(c.cache)
+
+//@ func (c *Cache) Remove
+//@   props C14
+//@   assume cache_wf(c)
+//@   ensures old(cache_bound(c)) ==> cache_bound(c)
+//@   ensures c.ll == old(c.ll) && c.cache == old(c.cache) && c.MaxEntries == old(c.MaxEntries)
+//@   ensures !haskey(c.cache, key)
+//@   ensures c.cache != nil ==> c.ll.len <= old(c.ll.len)
+//@   ensures result == old(haskey(c.cache, key))
+
+// Add: the key is indexed afterwards unless the limit made the cache evict it right away; the size
+// bound holds again
+//@ func (c *Cache) Add
+//@   props C14
+//@   assume cache_wf(c)
+//@   requires cache_bound(c)
+//@   ensures c.cache != nil && c.ll != nil && cache_bound(c)
